@@ -87,6 +87,33 @@ INFO.update({
  "C19w2-b": ("local_complementation rewritten on the neighbourhood block with an early return for len(neighbors) <= 2", "local complementation at a vertex of degree exactly 2 is a no-op"),
 })
 
+INFO.update({
+ "R1-a": ("sign repair vectorised: one batched PauliList.evolve + np.flatnonzero, guard-clause dispatcher, dead branch removed", "behaviour-preserving refactoring"),
+ "R1-b": ("sign-free builder appends the inverse local-Clifford layer in place through a dispatch table instead of compose(layer.inverse()); duplicated gate call in get_readout_circuit dropped", "behaviour-preserving refactoring"),
+ "R1-c": ("memoised lookup entries (frozen dataclass + lru_cache loader); cached circuit never handed out, graph write-protected", "behaviour-preserving refactoring"),
+ "R2-a": ("parse_circuit as dictionary dispatch on the first character with three extracted handlers (unbound QuantumCircuit.cx/cz)", "behaviour-preserving refactoring"),
+ "R2-b": ("the two cache-miss loaders merged into one generic loader using `if filename not in cache`", "behaviour-preserving refactoring"),
+ "R2-c": ("MUBInfo.copy()/mub_circuit_lookup() gain with_circuits/with_mubs flags; get_mubs/get_mub_info skip copying circuits", "behaviour-preserving refactoring"),
+ "R3-a": ("shared _append_readout helper for both tomography builders; tuple conversion helper; guard clauses", "behaviour-preserving refactoring"),
+ "R3-b": ("CircuitResult parsing unified through _outcome_from_key(key, qubits)", "behaviour-preserving refactoring"),
+ "R3-c": ("z_pauli_from_bitstring memoised with a typed lru_cache over a pure builder, copies handed out", "behaviour-preserving refactoring"),
+ "R4-a": ("estimator vectorised: parity table by np.bitwise_count for all signatures at once", "behaviour-preserving refactoring"),
+ "R4-b": ("sign read from the phase of the backwards-evolved Pauli, second evolve dropped", "behaviour-preserving refactoring"),
+ "R4-c": ("fitter base class, _get_readout_info, expectation_values split into helpers incl. _embed_into_full_hilbert_space", "behaviour-preserving refactoring"),
+ "R5-a": ("table-driven supported-configuration gate (_SUPPORTED_CONFIGURATIONS, _why_unsupported)", "behaviour-preserving refactoring"),
+ "R5-b": ("get_connectivity_graph as match statement + lru_cache prototype handed out as .copy()", "behaviour-preserving refactoring"),
+ "R5-c": ("Graph upper-triangle walks vectorised (triu_indices, packbits, fill_diagonal)", "behaviour-preserving refactoring"),
+ "R6-a": ("Stabilizer.__init__ split into _init_from_* helpers with _is_matrix_tuple / _as_int8", "behaviour-preserving refactoring"),
+ "R6-b": ("f2_algebra clean-up: shared pivot search, fancy-index swap, outer-product elimination, in-place basis change", "behaviour-preserving refactoring"),
+ "R6-c": ("Stabilizer.expand by Gray-style XOR, shared _symplectic_product via np.roll, comprehensions in is_qubit_entangled/to_list", "behaviour-preserving refactoring"),
+ "R7-a": ("local_clifford_layer_to_circuit as table of gate-name sequences applied via getattr(qc, name)(i)", "behaviour-preserving refactoring"),
+ "R7-b": ("find_local_clifford_layer vectorised by broadcasting; dead code removed", "behaviour-preserving refactoring"),
+ "R7-c": ("find_local_clifford_layer split into helpers with a lazy generator over the kernel span; extracted _get_local_clifford_correction", "behaviour-preserving refactoring"),
+ "R8-a": ("new internal _util.py (files() API reader, as_int8, symplectic_form, clear_diagonal); both lookups wrap one _load_cached", "behaviour-preserving refactoring"),
+ "R8-b": ("one SupportedConnectivity alias everywhere; table-driven connectivity_support; builder dictionary in get_connectivity_graph", "behaviour-preserving refactoring"),
+ "R8-c": ("debug logging throughout; _lookup_mub_info; builder split into helpers; _with_readout in tomography", "behaviour-preserving refactoring"),
+})
+
 
 def main():
     out = os.path.join(V, "seeded")
@@ -125,9 +152,11 @@ def main():
                 "property_targeted": sid.split("-")[0],
                 "change": info[0],
                 "needs_to_manifest": info[1],
-                "origin": "written by an independent sub-agent that saw only the property record and its own scratch worktree of /repo",
+                "kind": "behaviour-preserving refactoring (false-alarm corpus: no check may report a violation)" if sid.startswith("R") else "seeded defect",
+                "origin": "written by an independent sub-agent that saw only the property record (or, for refactorings, a focus area) and its own scratch worktree of /repo",
                 "confirmed_by": {
-                    "how": "tools/seedcheck.py confirm: scratch worktree of /repo HEAD under /tmp; demo.py without the patch, git apply, demo.py with the patch, full pytest run (-n 8) compared with BASELINE.json stable_pass; worktree removed",
+                    "how": ("tools/seedcheck.py confirm-refactor: scratch worktree of /repo HEAD under /tmp; demo.py (digest script) without and with the patch must print identical output and exit 0; full pytest run (-n 8) compared with BASELINE.json stable_pass; worktree removed" if sid.startswith("R") else
+                            "tools/seedcheck.py confirm: scratch worktree of /repo HEAD under /tmp; demo.py without the patch, git apply, demo.py with the patch, full pytest run (-n 8) compared with BASELINE.json stable_pass; worktree removed"),
                     "demo_exit_without_patch": c["demo_without"]["exit"], "demo_exit_with_patch": c["demo_with"]["exit"],
                     "baseline_tests_broken": c["baseline_tests_broken"], "tests_summary": c.get("tests_summary", ""),
                     "demo_output_with_patch_tail": c["demo_with"]["tail"][-300:],
